@@ -101,6 +101,52 @@ Definition decode_ovni (cs : list chanspec) (c v : Z) (p : list Z) : event :=
     end
   else EvBad E_UNKNOWN.                          (* M (marks) is handled by the mark engine *)
 
+(* task events: nOS-V (VT*, VYc) and Nanos6 (6T*, 6Yc).  aux = gid of the label of a type-create event
+   (the hash of the label is computed outside the model); jumbo = the event carries the jumbo flag *)
+Definition chan_of (cs : list chanspec) (m i : Z) : nat := match chan_pos cs m i with Some k => k | None => 0%nat end.
+
+Definition nosv_cfg (cs : list chanspec) : taskcfg :=
+  {| tc_need := 4; tc_bodyrule := true;
+     tc_ss := chan_of cs M_NOSV Tables_gen.c_nosv_CH_SUBSYSTEM; tc_ssval := Tables_gen.c_nosv_ST_TASK_BODY;
+     tc_chans := [(FBody, chan_of cs M_NOSV Tables_gen.c_nosv_CH_BODYID); (FTask, chan_of cs M_NOSV Tables_gen.c_nosv_CH_TASKID);
+                  (FType, chan_of cs M_NOSV Tables_gen.c_nosv_CH_TYPE); (FApp, chan_of cs M_NOSV Tables_gen.c_nosv_CH_APPID);
+                  (FRank, chan_of cs M_NOSV Tables_gen.c_nosv_CH_RANK)];
+     tc_appid_checked := true |}.
+
+Definition nanos6_cfg (cs : list chanspec) : taskcfg :=
+  {| tc_need := 2; tc_bodyrule := false;
+     tc_ss := chan_of cs M_NANOS6 Tables_gen.c_nanos6_CH_SUBSYSTEM; tc_ssval := Tables_gen.c_nanos6_ST_TASK_BODY;
+     tc_chans := [(FTask, chan_of cs M_NANOS6 Tables_gen.c_nanos6_CH_TASKID); (FType, chan_of cs M_NANOS6 Tables_gen.c_nanos6_CH_TYPE);
+                  (FRank, chan_of cs M_NANOS6 Tables_gen.c_nanos6_CH_RANK)];
+     tc_appid_checked := false |}.
+
+Definition decode_task (cs : list chanspec) (m c v : Z) (p : list Z) (jumbo : bool) (aux : Z) : option event :=
+  let n := length p in
+  if m =? M_NOSV then
+    if c =? 84 then (* T *)
+      if (v =? 99) || (v =? 67) then (* c C *)
+        Some (if Nat.ltb n 8 then EvBad E_PAYLOAD
+              else EvTaskCreate 4 M_NOSV (le_u32 p 0) (le_u32 p 4) (v =? 67) (negb (v =? 67)) (negb (v =? 67)) false)
+      else if (v =? 120) || (v =? 101) || (v =? 114) || (v =? 112) then
+        Some (if Nat.ltb n 8 then EvBad E_PAYLOAD else EvTask (nosv_cfg cs) M_NOSV v (le_u32 p 0) (le_u32 p 4))
+      else Some (EvBad E_UNKNOWN)
+    else if c =? 89 then (* Y *)
+      Some (if negb (v =? 99) then EvBad E_UNKNOWN else if negb jumbo then EvBad E_PAYLOAD
+            else EvTypeCreate 4 M_NOSV (le_u32 p 4) aux)     (* payload = jumbo size (4 bytes) then typeid *)
+    else None
+  else if m =? M_NANOS6 then
+    if c =? 84 then
+      if v =? 67 then Some (EvChan 0 IGN None 2)          (* old 6TC: ignored with a warning *)
+      else if v =? 99 then Some (if Nat.eqb n 8 then EvTaskCreate 2 M_NANOS6 (le_u32 p 0) (le_u32 p 4) false false true true else EvBad E_PAYLOAD)
+      else if (v =? 120) || (v =? 101) || (v =? 114) || (v =? 112) then
+        Some (if Nat.ltb n 4 then EvBad E_PAYLOAD else EvTask (nanos6_cfg cs) M_NANOS6 v (le_u32 p 0) 0)
+      else Some (EvBad E_UNKNOWN)
+    else if c =? 89 then
+      Some (if negb (v =? 99) then EvBad E_UNKNOWN else if negb jumbo then EvBad E_PAYLOAD
+            else EvTypeCreate 2 M_NANOS6 (le_u32 p 4) aux)
+    else None
+  else None.
+
 Definition decode (enabled : list Z) (cs : list chanspec) (m c v : Z) (p : list Z) : event :=
   if negb (memz m enabled) then EvBad E_UNKNOWN
   else if m =? M_OVNI then decode_ovni cs c v p
@@ -126,6 +172,13 @@ Definition decode (enabled : list Z) (cs : list chanspec) (m c v : Z) (p : list 
       | Some k => EvChan k (conv_action a) (Some x) (need_of m)
       end
     end.
+
+Definition decode_full (enabled : list Z) (cs : list chanspec) (m c v : Z) (p : list Z) (jumbo : bool) (aux : Z) : event :=
+  if negb (memz m enabled) then EvBad E_UNKNOWN
+  else match decode_task cs m c v p jumbo aux with
+       | Some e => e
+       | None => decode enabled cs m c v p
+       end.
 
 (* channels checked by end_lint of the models that have one (subsystem / function stacks) *)
 Definition lint_chans (cs : list chanspec) : list nat :=
